@@ -4,7 +4,7 @@
 From RV Require Import Base.
 From RV.Model Require Import Utf8 Indexer CodePointSet Insn IR Optimizer Unfold Emit.
 From RV.Spec Require Import IRSem IRShape.
-From RV.Proofs Require Import NodeInd OptDD OptMono OptWalk OptRel OptDecat OptFails OptEmpties OptUnroll OptPromote OptBrackets OptBytes.
+From RV.Proofs Require Import NodeInd MatchRange OptDD OptMono OptWalk OptRel OptDecat OptFails OptEmpties OptUnroll OptPromote OptBrackets OptBytes.
 
 Section Top.
   Variable ix : indexer.
@@ -17,23 +17,25 @@ Section Top.
   Notation al := (al ix unicode utf16 h okp).
   Notation PRel := (PRel ix unicode utf16 h okp).
 
+  Lemma gok_init k : gok okp (repeat gd_empty k).
+  Proof. induction k; constructor; [apply gdok_empty|assumption]. Qed.
+
   Lemma rres_trans fwd a b c : rres fwd a b -> rres fwd b c -> rres fwd a c.
   Proof.
-    intros [K1 H1] [K2 H2]. exists (K1 + K2)%nat. intros f Hf. rewrite Nat.add_assoc in *.
-    eapply frelP_trans; [apply H1; eapply fuel_ok_le; [|exact Hf]; lia|apply H2; exact Hf].
+    intros [K1 H1] [K2 H2]. exists (K1 + K2)%nat. intro f. rewrite Nat.add_assoc. eapply frelP_trans; [apply H1|apply H2].
   Qed.
 
   Theorem search_ref n n' :
     (forall p p', okp p -> ix_next_right_pos ix h p = Ok (Some p') -> okp p') ->
     rres true n n' ->
-    exists K, forall fuel ngroups tries p r, fuel_ok (fuel + K) -> okp p ->
+    exists K, forall fuel ngroups tries p r, okp p ->
       ir_search ix unicode utf16 h fuel n ngroups tries p = Some r ->
       ir_search ix unicode utf16 h (fuel + K) n' ngroups tries p = Some r.
   Proof.
-    intros Hk5 [K H]. exists K. intros fuel ngroups tries p r Hf. revert p r. induction tries as [|t IH]; intros p r Hp E; [discriminate|].
+    intros Hk5 [K H]. exists K. intros fuel ngroups. induction tries as [|t IH]; intros p r Hp E; [discriminate|].
     cbn [ir_search] in *.
     destruct (IR fuel n true (p, repeat gd_empty ngroups)) as [l|] eqn:El; [|discriminate].
-    destruct (H fuel Hf (p, repeat gd_empty ngroups) l Hp El) as [l' [El' D]]. rewrite El'. pose proof (dd_head _ _ D) as Hh.
+    destruct (H fuel (p, repeat gd_empty ngroups) l (conj Hp (gok_init ngroups)) El) as [l' [El' D]]. rewrite El'. pose proof (dd_head _ _ D) as Hh.
     destruct l as [|y l]; destruct l' as [|y' l']; try contradiction.
     - destruct (ix_next_right_pos ix h p) as [e|[p'|]] eqn:En; try exact E. apply IH; [eapply Hk5; eauto|exact E].
     - subst y'. exact E.
@@ -50,8 +52,8 @@ Section Top.
     destruct l as [|y l].
     - destruct (ix_next_right_pos ix h p) as [e0|[p'|]] eqn:En; try discriminate. eapply IH; [eapply Hk5; eauto|exact E].
     - inversion E; subst. split; [exact Hp|].
-      pose proof (closed_al ix unicode utf16 h okp fuel n true Ha (p0, repeat gd_empty ngroups) (y :: l) Hp El) as Hc.
-      inversion Hc; subst. assumption.
+      pose proof (closed_al ix unicode utf16 h okp fuel n true Ha (p0, repeat gd_empty ngroups) (y :: l) (conj Hp (gok_init ngroups)) El) as Hc.
+      inversion Hc as [|y0 l0 Hy _]; subst. exact (proj1 Hy).
   Qed.
 
   Lemma obindm_goal f fwd : forall ys, obindm (IR (S f) NGoal fwd) ys = Some ys.
@@ -116,12 +118,15 @@ Section Top.
       destruct c; try apply rres_refl. rewrite (rev_goal l r Er). apply cat_goal_up.
   Qed.
 
-  (* the text hypotheses of the passes, at the well-formed positions [okp] (character boundaries): reading an element
-     or stepping to the next attempt leads to a well-formed position; elements are code points; bytes and elements
+  (* the text hypotheses of the passes, at the well-formed positions [okp] (character boundaries), which lie inside
+     the text: reading an element
+     or stepping to the next attempt leads to a well-formed position, and so does replaying a capture; elements are code points; bytes and elements
      agree below 128; one step of a one-character node can be undone *)
   Definition text_ok : Prop :=
+    (forall q, okp q -> (q <= length h)%nat) /\
     (forall fwd p c p', okp p -> cnext ix fwd h p = Ok (Some (c, p')) -> okp p') /\
     (forall p p', okp p -> ix_next_right_pos ix h p = Ok (Some p') -> okp p') /\
+    (forall fwd p rs re e, okp p -> okp rs -> okp re -> subrange_eq fwd h p rs re = Ok (Some e) -> okp e) /\
     (forall fwd p c p', okp p -> cnext ix fwd h p = Ok (Some (c, p')) -> c <= CODE_POINT_MAX) /\
     (forall fwd q, okp q ->
        match next_byte fwd h q with
@@ -142,28 +147,33 @@ Section Top.
 
   (* the search over the stripped optimized node returns what the search over the stripped original returns *)
   Theorem top_search_ref n n' : text_ok -> ref true n n' ->
-    exists K, forall fuel ngroups tries p r, fuel_ok (fuel + K) -> okp p ->
+    exists K, forall fuel ngroups tries p r, okp p ->
       ir_search ix unicode utf16 h fuel (ir_top n) ngroups tries p = Some r ->
       ir_search ix unicode utf16 h (fuel + K) (ir_top n') ngroups tries p = Some r.
   Proof.
-    intros (_ & Hk5 & _) [Hr _]. apply search_ref; [exact Hk5|].
+    intros (_ & _ & Hk5 & _) [Hr _]. apply search_ref; [exact Hk5|].
     eapply rres_trans; [apply top_up|]. eapply rres_trans; [exact Hr|apply top_down].
   Qed.
 
-  (* ... and for the literal-bytes pass: the well-formed positions lie inside the text, and a scalar value read as an
-     element is its UTF-8 encoding read as bytes, whose end is a well-formed position (decoding and encoding are
-     inverse on well-formed UTF-8) *)
+  (* ... and for the literal-bytes pass: a scalar value read as an element is its UTF-8 encoding read as bytes, whose
+     end is a well-formed position (decoding and encoding are inverse on well-formed UTF-8) *)
   Definition text_enc : Prop :=
-    (forall q, okp q -> (q <= length h)%nat) /\
     (forall fwd q c, okp q -> is_scalar c = true ->
        match next_if ix fwd h q (N.eqb c) with Ok r => match_bytes fwd h q (utf8_encode c) = Ok r | Err _ => True end) /\
     (forall fwd q c e, okp q -> is_scalar c = true -> match_bytes fwd h q (utf8_encode c) = Ok (Some e) -> okp e).
 
+  (* about the indexer alone: on every text it moves inside the text and in its direction; about the text: it is
+     shorter than usize::MAX (so that no loop counter reaches the value that stands for "unbounded") *)
+  Definition ix_ok : Prop :=
+    (forall (h' : hay) fwd p c p', (p <= length h')%nat -> cnext ix fwd h' p = Ok (Some (c, p')) -> (p' <= length h')%nat) /\
+    (forall (h' : hay) fwd p c p', cnext ix fwd h' p = Ok (Some (c, p')) -> if fwd then (p <= p')%nat else (p' <= p)%nat).
+  Definition short : Prop := N.of_nat (length h) + 8 < USIZE_MAX.
+
   (* optimize() is the composition of its passes *)
-  Theorem optimize_sound : text_ok -> text_enc ->
+  Theorem optimize_sound : ix_ok -> short -> text_ok -> text_enc ->
     forall u16 n n', optimize u16 n = Ok n' -> PRel false n n'.
   Proof.
-    intros (Hk1 & Hk5 & Hcp & Hb1 & Hb2 & Hstep) (Hk0 & He1 & He2) u16 n n' E. unfold optimize in E.
+    intros (Hcur & Hdir) Hlen (Hk0 & Hk1 & Hk5 & Hk4 & Hcp & Hb1 & Hb2 & Hstep) (He1 & He2) u16 n n' E. unfold optimize in E.
     destruct (run_to_fixpoint simplify_brackets PASS_FUEL n) as [e|n0] eqn:E0; [discriminate|]. cbn [bindR] in E.
     destruct (run_to_fixpoint decat PASS_FUEL n0) as [e|n1] eqn:E1; [discriminate|]. cbn [bindR] in E.
     destruct (run_to_fixpoint unroll_loops PASS_FUEL n1) as [e|n2] eqn:E2; [discriminate|]. cbn [bindR] in E.
@@ -173,7 +183,7 @@ Section Top.
     destruct (run_to_fixpoint remove_empties PASS_FUEL n4) as [e|n5] eqn:E5; [discriminate|]. cbn [bindR] in E.
     eapply PRel_trans; [eapply brackets_pass_sound; [exact Hk1|exact Hcp|exact Hb1|exact Hb2|exact E0]|].
     eapply PRel_trans; [eapply decat_pass_sound; exact E1|].
-    eapply PRel_trans; [eapply unroll_pass_sound; exact E2|].
+    eapply PRel_trans; [eapply unroll_pass_sound; [exact Hcur|exact Hdir|exact Hk0|exact Hlen|exact E2]|].
     eapply PRel_trans; [eapply promote_pass_sound; [exact Hstep|exact E3]|].
     eapply PRel_trans; [|eapply PRel_trans; [eapply empties_pass_sound; exact E5|eapply fails_pass_sound; [exact Hcp|exact E]]].
     destruct u16; [inversion E4; subst; apply PRel_refl|].
@@ -181,9 +191,9 @@ Section Top.
   Qed.
 
   (* the utf16 build compiles form_literal_bytes out: there the whole of optimize() is covered *)
-  Theorem optimize_sound_utf16_build : text_ok -> forall n n', optimize true n = Ok n' -> PRel false n n'.
+  Theorem optimize_sound_utf16_build : ix_ok -> short -> text_ok -> forall n n', optimize true n = Ok n' -> PRel false n n'.
   Proof.
-    intros (Hk1 & Hk5 & Hcp & Hb1 & Hb2 & Hstep) n n' E. unfold optimize in E.
+    intros (Hcur & Hdir) Hlen (Hk0 & Hk1 & Hk5 & Hk4 & Hcp & Hb1 & Hb2 & Hstep) n n' E. unfold optimize in E.
     destruct (run_to_fixpoint simplify_brackets PASS_FUEL n) as [e|n0] eqn:E0; [discriminate|]. cbn [bindR] in E.
     destruct (run_to_fixpoint decat PASS_FUEL n0) as [e|n1] eqn:E1; [discriminate|]. cbn [bindR] in E.
     destruct (run_to_fixpoint unroll_loops PASS_FUEL n1) as [e|n2] eqn:E2; [discriminate|]. cbn [bindR] in E.
@@ -191,7 +201,7 @@ Section Top.
     destruct (run_to_fixpoint remove_empties PASS_FUEL n3) as [e|n5] eqn:E5; [discriminate|]. cbn [bindR] in E.
     eapply PRel_trans; [eapply brackets_pass_sound; [exact Hk1|exact Hcp|exact Hb1|exact Hb2|exact E0]|].
     eapply PRel_trans; [eapply decat_pass_sound; exact E1|].
-    eapply PRel_trans; [eapply unroll_pass_sound; exact E2|].
+    eapply PRel_trans; [eapply unroll_pass_sound; [exact Hcur|exact Hdir|exact Hk0|exact Hlen|exact E2]|].
     eapply PRel_trans; [eapply promote_pass_sound; [exact Hstep|exact E3]|].
     eapply PRel_trans; [eapply empties_pass_sound; exact E5|eapply fails_pass_sound; [exact Hcp|exact E]].
   Qed.
@@ -202,7 +212,7 @@ End Top.
 Lemma al_nowhere ix unicode utf16 h : forall n, al ix unicode utf16 h (fun _ => False) n.
 Proof.
   induction n as [n Hleaf|l H|a b IHa IHb|id c nm IHc|neg bw sg eg c IHc|b mn mx g egs ege IHb|b mn mx g IHb] using node_ind2.
-  - destruct n; try contradiction; (split; [intros f fwd x r Hx; destruct Hx|intros fwd s _ q q' Hq; destruct Hq]).
+  - destruct n; try contradiction; (split; [intros f fwd x r [Hx _]; destruct Hx|intros fwd s _ q q' Hq; destruct Hq]).
   - apply al_cat. exact H.
   - split; assumption.
   - exact IHc.
@@ -214,11 +224,13 @@ Qed.
 Theorem optimize_invariants : forall u16 n n', optimize u16 n = Ok n' -> qok n = true -> qok n' = true /\ ng n' = ng n.
 Proof.
   intros u16 n n' E Hq.
+  assert (Hi : ix_ok ascii_indexer) by (split; [exact ascii_cursor|exact ascii_dir]).
+  assert (Hs : short []) by reflexivity.
   assert (Ht : text_ok ascii_indexer false [] (fun _ => False)).
-  { split; [intros fwd p c p' []|]. split; [intros p p' []|]. split; [intros fwd p c p' []|].
+  { split; [intros q []|]. split; [intros fwd p c p' []|]. split; [intros p p' []|]. split; [intros fwd p rs re e []|]. split; [intros fwd p c p' []|].
     split; [intros fwd q []|]. split; [intros fwd q []|]. intros body fwd s q q' _ []. }
   assert (He : text_enc ascii_indexer [] (fun _ => False)).
-  { split; [intros q []|]. split; [intros fwd q c []|intros fwd q c e []]. }
-  destruct (optimize_sound ascii_indexer false false [] (fun _ => False) Ht He u16 n n' E Hq (al_nowhere _ _ _ _ n)) as (_ & Q & _ & N).
+  { split; [intros fwd q c []|intros fwd q c e []]. }
+  destruct (optimize_sound ascii_indexer false false [] (fun _ => False) Hi Hs Ht He u16 n n' E Hq (al_nowhere _ _ _ _ n)) as (_ & Q & _ & N).
   split; assumption.
 Qed.
